@@ -265,10 +265,19 @@ def install_probes():
             if not getattr(e, "_c10_seen", False) and not any(ev[0] == "pre" for ev in LOG[mark:]):
                 import traceback
 
-                e._c10_seen, e._c10_stage = True, "Preamble"
+                from scenic.core.errors import ScenicSyntaxError
+
+                e._c10_seen = True
                 e._c10_tb = [fr.name for fr in traceback.extract_tb(e.__traceback__)][-6:]
                 at = next((i for i in range(mark, len(LOG)) if LOG[i][0] == "deactivate"), len(LOG))
-                LOG.insert(at, ["fail", "Preamble", "internal", 0, 1, 0])
+                if isinstance(e, ScenicSyntaxError):
+                    # a located syntax error for text that cannot even be decoded: reading the source is
+                    # the first part of parsing it
+                    e._c10_stage = "Parse"
+                    LOG[at:at] = [["pre", "", "", 0, 0, 0], ["fail", "Parse", "syntax", _line(e), _textok(e), 0]]
+                else:
+                    e._c10_stage = "Preamble"
+                    LOG.insert(at, ["fail", "Preamble", "internal", 0, 1, 0])
             raise
 
     T.compileStream = compileStream
